@@ -5,8 +5,10 @@ from .paths import enumerate_paths
 from . import terms as T
 
 
-def value_table(body, is_input, limit=20000):
-    """(table, open_returns): table maps every input value pinned by the decisions of some returning path to the list of
+def value_table(body, is_input, limit=20000, universe=None):
+    """universe: all values the input can take (e.g. the discriminants of an enum); with it the default edge of a switch is
+    read as `every value not listed`.
+    (table, open_returns): table maps every input value pinned by the decisions of some returning path to the list of
     return-value terms of those paths; open_returns lists returning paths on which the input is not pinned to values."""
     table, open_returns = {}, []
     for p in enumerate_paths(body, max_visits=1, limit=limit):
@@ -21,6 +23,9 @@ def value_table(body, is_input, limit=20000):
             nxt = p.blocks[i + 1]
             if is_input(v):
                 taken = {int(x) for x, g in zip(t["vals"], t["tgts"]) if g == nxt}
+                if nxt == t["otherwise"] and universe is not None:
+                    # the wildcard / default edge stands for every value that is not listed
+                    taken |= set(universe) - {int(x) for x in t["vals"]}
                 if taken:
                     vals = taken if vals is None else (vals & taken)
                 continue
